@@ -229,3 +229,35 @@ Fixpoint remove_label_loop (fuel : nat) (s : string) : res string :=
   end.
 Definition remove_label (fuel : nat) (s : string) : res string :=
   if s =? "" then Err else remove_label_loop fuel s.
+
+(* ======================================================================================== *)
+(* 4. wave 3: pkg/apk/internal/tarfs FS.open — opening a member of an indexed tar by name.
+      index[hdr.Name] = the LAST entry of that name; an entry that is a hard link (kind 1) or a
+      symbolic link (kind 2) is followed: an absolute link name as it is, any other joined to
+      path.Dir of the entry's name (for hard links too — what the code does); every recursive call
+      raises the hop counter by what goextract reads from the source (tarfs_hop_incr) and the chase
+      ends with an error when the counter passes maxHops. The counter is the ONLY thing that bounds
+      the recursion: OutOfFuel stands for the recursion that does not end (in Go: stack overflow).
+      Result: the name of the entry that is opened. *)
+Record tent := mkTent { tn_kind : Z; tn_link : string }.
+Definition tar_index (es : list (string * tent)) : list (string * tent) :=
+  fold_left (fun m e => aset (fst e) (snd e) m) es [].
+Definition tarfs_target (name link : string) : string :=
+  if starts_with_slash link then link else path_join2 (path_dir name) link.
+Fixpoint tarfs_open (fuel : nat) (idx : list (string * tent)) (name : string) (hops : Z) : res string :=
+  match fuel with
+  | O => OutOfFuel
+  | S f =>
+      if (tarfs_max_hops <? hops)%Z then Err else
+      match alookup name idx with
+      | None => Err
+      | Some e =>
+          if (tn_kind e =? 1)%Z then tarfs_open f idx (tarfs_target name (tn_link e)) (hops + fst tarfs_hop_incr)%Z
+          else if (tn_kind e =? 2)%Z then tarfs_open f idx (tarfs_target name (tn_link e)) (hops + snd tarfs_hop_incr)%Z
+          else Ok name
+      end
+  end.
+(* FS.Open(name) = open(name, 0); maxHops + 2 calls at most (hops = 0 .. maxHops + 1) *)
+Definition tarfs_fuel : nat := Z.to_nat (tarfs_max_hops + 2).
+Definition tarfs_open_name (es : list (string * tent)) (name : string) : res string :=
+  tarfs_open tarfs_fuel (tar_index es) name 0.
